@@ -1,7 +1,7 @@
 (* C07 — Decoding is total and its normalisation is idempotent. *)
 From Coq Require Import List String Bool ZArith.
 Local Open Scope Z_scope.
-From Spec Require Import Base.Json Codec.Types Codec.Gen_Tables Codec.Codec Codec.CodecFacts Codec.PayloadFacts.
+From Spec Require Import Base.Json Codec.Types Codec.Gen_Tables Codec.Codec Codec.CodecFacts Codec.PayloadFacts Codec.TypedFacts.
 Import ListNotations.
 Local Open Scope string_scope.
 
@@ -61,3 +61,38 @@ Example C07_payload_example :
   norm gen_env false j TAny = ROk (JObj [("a", JArr [JObj [("y", JBool true); ("z", JStr "last")]]); ("b", JStr "wins")])
   /\ norm_any j <> j.
 Proof. split; [vm_compute; reflexivity|vm_compute; discriminate]. Qed.
+
+(* ---------- proved for every input: the union kinds and the container field types (Codec/TypedFacts.v) ---------- *)
+(* `type` (a string or a list of strings): whatever JSON value is given - a string, a list with blank or null entries, a
+   list of one, an empty list, null - the encoding is a fixed point (in particular `[""]` is written `""` and `""` stays) *)
+Theorem C07_string_or_array_is_a_fixed_point : forall G j v,
+  norm gen_env G j (TNamed "StringOrArray") = ROk v -> norm gen_env G v (TNamed "StringOrArray") = ROk v.
+Proof. exact soa_idem_gen. Qed.
+Print Assumptions C07_string_or_array_is_a_fixed_point.
+
+(* additionalProperties / additionalItems given as anything but an object; dependencies given as a list of names *)
+Theorem C07_schema_or_bool_is_a_fixed_point : forall G j v, (forall m, j <> JObj m) ->
+  norm gen_env G j (TNamed "SchemaOrBool") = ROk v -> norm gen_env G v (TNamed "SchemaOrBool") = ROk v.
+Proof. exact sob_idem_gen. Qed.
+Print Assumptions C07_schema_or_bool_is_a_fixed_point.
+Theorem C07_schema_or_string_array_is_a_fixed_point : forall G j v, (forall m, j <> JObj m) ->
+  norm gen_env G j (TNamed "SchemaOrStringArray") = ROk v -> norm gen_env G v (TNamed "SchemaOrStringArray") = ROk v.
+Proof. exact sosa_idem_gen. Qed.
+Print Assumptions C07_schema_or_string_array_is_a_fixed_point.
+
+(* every field whose Go type is built from string, bool, float64, int64, interface{} and StringOrArray by slices and
+   string-keyed maps (required, enum, consumes, produces, schemes, tags of an operation, scopes, examples, security
+   requirements ...): whatever JSON value it is given, decoding and encoding is idempotent *)
+Theorem C07_simple_field_types_are_fixed_points : forall t, simple_ty t ->
+  forall j v, norm gen_env false j t = ROk v -> norm gen_env false v t = ROk v.
+Proof. exact simple_idem_gen. Qed.
+Print Assumptions C07_simple_field_types_are_fixed_points.
+
+(* the fields of the tables regenerated from /repo that have such a type (89 of the 201 encoded fields on the pinned tree;
+   the statement only says "at least 40", so that adding or removing a field is not a broken obligation) *)
+Example C07_simple_fields_of_the_package :
+  Nat.leb 40 (List.length (simple_fields gen_env)) = true /\ forall f, In f (simple_fields gen_env) -> simple_ty (f_ty f).
+Proof.
+  split; [vm_compute; reflexivity|].
+  intros f Hf. apply filter_In in Hf. destruct Hf as [_ Hf]. apply andb_true_iff in Hf. apply simple_tyb_sound. exact (proj2 Hf).
+Qed.
